@@ -3,7 +3,7 @@
    (ordered attribute list = decoding of consecutive fields) is decided by correspondence + an independent spec
    decoder on every definition, see the check. *)
 From PyUbx Require Import Base Bytes PyFloat Types Strs Walk Consts Tables Msg WfDef.
-From PyUbx Require Import Msg_lemmas Codec_lemmas Bits_lemmas Field_lemmas Table_props.
+From PyUbx Require Import Msg_lemmas Codec_lemmas Bits_lemmas Field_lemmas.
 Open Scope Z_scope.
 
 (* parsing never alters the payload it reads (every definition, every repeat count) *)
